@@ -55,7 +55,7 @@ fn gunit(s: &str) -> GradeUnit {
     serde_json::from_value(json!(s)).unwrap()
 }
 
-fn record(name: &str, pm: TablePM, ideal: f64, adj: f64, cache: bool) -> PredictionModelRecord {
+fn record(name: &str, pm: TablePM, ideal: f64, adj: f64, cache: Option<Vec<i32>>) -> PredictionModelRecord {
     let (su, gu, ru) = (pm.su, pm.gu, pm.ru);
     PredictionModelRecord {
         name: name.to_string(),
@@ -66,7 +66,7 @@ fn record(name: &str, pm: TablePM, ideal: f64, adj: f64, cache: bool) -> Predict
         energy_rate_unit: ru,
         ideal_energy_rate: EnergyRate::new(ideal),
         real_world_energy_adjustment: adj,
-        cache: if cache { Some(FloatCachePolicy::from_config(FloatCachePolicyConfig { cache_size: 100, key_precisions: vec![6, 8] }).unwrap()) } else { None },
+        cache: cache.map(|p| FloatCachePolicy::from_config(FloatCachePolicyConfig { cache_size: 100, key_precisions: p }).unwrap()),
     }
 }
 
@@ -109,14 +109,20 @@ fn run_scenario(out: &mut Out, scn: &Value) {
         "kilometers" => (EnergyRateUnit::KilowattHoursPerKilometer, EnergyRateUnit::GallonsGasolinePerMile),
         _ => (EnergyRateUnit::KilowattHoursPerMeter, EnergyRateUnit::GallonsGasolinePerMile),
     };
-    let cache = scn["cache"].as_bool().unwrap_or(false);
+    // key precisions of the prediction cache: finer than the data by default; `cache_prec` = exactly the granularity of
+    // the speeds and grades of the scenario (keys still lossless, neighbouring keys one unit apart)
+    let cache: Option<Vec<i32>> = if scn["cache"].as_bool().unwrap_or(false) {
+        Some(scn["cache_prec"].as_array().map(|a| a.iter().map(|x| x.as_i64().unwrap() as i32).collect()).unwrap_or(vec![6, 8]))
+    } else {
+        None
+    };
     let dep = |ru: EnergyRateUnit| TablePM { a: f("a"), b: f("b"), c: f("c"), su: msu, gu: mgu, ru, which: "dep", seen: seen.clone() };
     let sus = TablePM { a: f("a2"), b: f("b2"), c: f("c2"), su: msu, gu: mgu, ru: ru_l, which: "sus", seen: seen.clone() };
     let cap = Energy::new(f("cap"));
     let vehicle: Arc<dyn VehicleType> = match vtype {
-        "ice" => Arc::new(ICE::new("veh".into(), record("m", dep(ru_l), f("ideal"), f("adj"), cache)).unwrap()),
-        "bev" => Arc::new(BEV::new("veh".into(), record("m", dep(ru_e), f("ideal"), f("adj"), cache), cap, cap, EnergyUnit::KilowattHours)),
-        _ => Arc::new(PHEV::new("veh".into(), record("s", sus, f("ideal"), f("adj"), cache), record("d", dep(ru_e), f("ideal"), f("adj"), cache), cap, cap, EnergyUnit::KilowattHours, None).unwrap()),
+        "ice" => Arc::new(ICE::new("veh".into(), record("m", dep(ru_l), f("ideal"), f("adj"), cache.clone())).unwrap()),
+        "bev" => Arc::new(BEV::new("veh".into(), record("m", dep(ru_e), f("ideal"), f("adj"), cache.clone()), cap, cap, EnergyUnit::KilowattHours)),
+        _ => Arc::new(PHEV::new("veh".into(), record("s", sus, f("ideal"), f("adj"), cache.clone()), record("d", dep(ru_e), f("ideal"), f("adj"), cache.clone()), cap, cap, EnergyUnit::KilowattHours, None).unwrap()),
     };
     // speed table (time model) and grade table files
     let edges = scn["edges"].as_array().unwrap();
@@ -225,8 +231,25 @@ fn gen(r: &mut StdRng) -> Value {
     let soc0 = if vtype == "phev" && soc0.is_null() { json!(37.5) } else { soc0 };
     let du = ["meters", "miles", "kilometers"][r.gen_range(0..3)];
     let tu = ["seconds", "hours", "minutes"][r.gen_range(0..3)];
-    json!({"veh": veh, "soc0": soc0, "edges": edges, "cache": r.gen_bool(0.4),
-           "units": {"time_speed": tsu, "grade": gu, "distance": du, "time": tu}})
+    let cache = r.gen_bool(0.4);
+    let mut scn = json!({"veh": veh, "soc0": soc0, "edges": edges, "cache": cache,
+           "units": {"time_speed": tsu, "grade": gu, "distance": du, "time": tu}});
+    // half of the cached scenarios: keys exactly as fine as the data (grades in steps of 1 % slope, speeds in hundredths),
+    // with a flat edge and a gentle downhill edge one key apart at the same speed
+    if cache && n >= 2 && n % 2 == 0 {
+        let (granule, pg) = match gu { "decimal" => (0.01, 2), "percent" => (1.0, 0), _ => (10.0, -1) };
+        let es = scn["edges"].as_array_mut().unwrap();
+        for e in es.iter_mut() {
+            let g = e["grade"].as_f64().unwrap();
+            e["grade"] = json!(((g / granule).round() * granule * 10000.0f64).round() / 10000.0);
+        }
+        let s0 = es[0]["speed"].clone();
+        es[0]["grade"] = json!(0.0);
+        es[1]["speed"] = s0;
+        es[1]["grade"] = json!(-granule);
+        scn["cache_prec"] = json!([2, pg]);
+    }
+    scn
 }
 
 pub fn main(args: &[String]) -> i32 {
